@@ -59,6 +59,9 @@ var commands = map[string]command{
 	"jcs-replay":          jcsReplay,
 	"jcs-trace":           jcsTrace,
 	"jws-replay":          jwsReplay,
+	"robust-replay":       robustReplay,
+	"robust-worker":       robustWorker,
+	"robust-trace":        robustTrace,
 }
 
 func main() {
